@@ -17,6 +17,8 @@ enum JxlThreadPoolImpl {
     Rayon(std::sync::Arc<rayon_core::ThreadPool>),
     #[cfg(feature = "rayon")]
     RayonGlobal,
+    #[cfg(jxl_oxide_verif)]
+    Verif(std::sync::Arc<dyn verif::VerifPool>),
     None,
 }
 
@@ -28,6 +30,8 @@ pub struct JxlScope<'r, 'scope>(JxlScopeInner<'r, 'scope>);
 enum JxlScopeInner<'r, 'scope> {
     #[cfg(feature = "rayon")]
     Rayon(&'r rayon_core::Scope<'scope>),
+    #[cfg(jxl_oxide_verif)]
+    Verif(&'r dyn verif::VerifPool, usize, std::marker::PhantomData<&'r &'scope ()>),
     None(std::marker::PhantomData<&'r &'scope ()>),
 }
 
@@ -99,6 +103,8 @@ impl JxlThreadPool {
     pub fn as_rayon_pool(&self) -> Option<&rayon_core::ThreadPool> {
         match &self.0 {
             JxlThreadPoolImpl::Rayon(pool) => Some(&**pool),
+            #[cfg(jxl_oxide_verif)]
+            JxlThreadPoolImpl::Verif(_) => None,
             JxlThreadPoolImpl::RayonGlobal | JxlThreadPoolImpl::None => None,
         }
     }
@@ -108,6 +114,8 @@ impl JxlThreadPool {
         match self.0 {
             #[cfg(feature = "rayon")]
             JxlThreadPoolImpl::Rayon(_) | JxlThreadPoolImpl::RayonGlobal => true,
+            #[cfg(jxl_oxide_verif)]
+            JxlThreadPoolImpl::Verif(ref pool) => pool.is_multithreaded(),
             JxlThreadPoolImpl::None => false,
         }
     }
@@ -121,6 +129,8 @@ impl JxlThreadPool {
             JxlThreadPoolImpl::Rayon(pool) => pool.spawn(op),
             #[cfg(feature = "rayon")]
             JxlThreadPoolImpl::RayonGlobal => rayon_core::spawn(op),
+            #[cfg(jxl_oxide_verif)]
+            JxlThreadPoolImpl::Verif(pool) => pool.spawn(Box::new(op)),
             JxlThreadPoolImpl::None => op(),
         }
     }
@@ -141,6 +151,8 @@ impl JxlThreadPool {
                 let scope = JxlScope(JxlScopeInner::Rayon(scope));
                 op(scope)
             }),
+            #[cfg(jxl_oxide_verif)]
+            JxlThreadPoolImpl::Verif(pool) => verif::scope(&**pool, op),
             JxlThreadPoolImpl::None => op(JxlScope(JxlScopeInner::None(Default::default()))),
         }
     }
@@ -152,6 +164,8 @@ impl JxlThreadPool {
             JxlThreadPoolImpl::Rayon(pool) => pool.install(|| par_for_each(v, op)),
             #[cfg(feature = "rayon")]
             JxlThreadPoolImpl::RayonGlobal => par_for_each(v, op),
+            #[cfg(jxl_oxide_verif)]
+            JxlThreadPoolImpl::Verif(pool) => verif::for_each_with(&**pool, v, (), |_, t| op(t)),
             JxlThreadPoolImpl::None => v.into_iter().for_each(op),
         }
     }
@@ -168,6 +182,8 @@ impl JxlThreadPool {
             JxlThreadPoolImpl::Rayon(pool) => pool.install(|| par_for_each_with(v, init, op)),
             #[cfg(feature = "rayon")]
             JxlThreadPoolImpl::RayonGlobal => par_for_each_with(v, init, op),
+            #[cfg(jxl_oxide_verif)]
+            JxlThreadPoolImpl::Verif(pool) => verif::for_each_with(&**pool, v, init, op),
             JxlThreadPoolImpl::None => {
                 let mut init = init;
                 v.into_iter().for_each(|item| op(&mut init, item))
@@ -186,6 +202,10 @@ impl JxlThreadPool {
             JxlThreadPoolImpl::Rayon(pool) => pool.install(|| par_for_each(v, op)),
             #[cfg(feature = "rayon")]
             JxlThreadPoolImpl::RayonGlobal => par_for_each(v, op),
+            #[cfg(jxl_oxide_verif)]
+            JxlThreadPoolImpl::Verif(pool) => {
+                verif::for_each_with(&**pool, v.iter_mut().collect(), (), |_, t| op(t))
+            }
             JxlThreadPoolImpl::None => v.iter_mut().for_each(op),
         }
     }
@@ -202,6 +222,10 @@ impl JxlThreadPool {
             JxlThreadPoolImpl::Rayon(pool) => pool.install(|| par_for_each_with(v, init, op)),
             #[cfg(feature = "rayon")]
             JxlThreadPoolImpl::RayonGlobal => par_for_each_with(v, init, op),
+            #[cfg(jxl_oxide_verif)]
+            JxlThreadPoolImpl::Verif(pool) => {
+                verif::for_each_with(&**pool, v.iter_mut().collect(), init, op)
+            }
             JxlThreadPoolImpl::None => {
                 let mut init = init;
                 v.iter_mut().for_each(|item| op(&mut init, item))
@@ -238,7 +262,137 @@ impl<'scope> JxlScope<'_, 'scope> {
                 let scope = JxlScope(JxlScopeInner::Rayon(scope));
                 op(scope)
             }),
+            #[cfg(jxl_oxide_verif)]
+            JxlScopeInner::Verif(pool, token, _) => verif::scope_spawn(pool, token, op),
             JxlScopeInner::None(_) => op(JxlScope(JxlScopeInner::None(Default::default()))),
+        }
+    }
+}
+
+#[cfg(jxl_oxide_verif)]
+impl JxlThreadPool {
+    /// Creates a thread pool whose every task is handed to a simulator-owned executor.
+    pub fn verif(pool: std::sync::Arc<dyn verif::VerifPool>) -> Self {
+        Self(JxlThreadPoolImpl::Verif(pool))
+    }
+}
+
+/// Verification hook (H2): a thread pool variant that forwards every task to an executor owned
+/// by a simulator. Compiled only with `--cfg jxl_oxide_verif`.
+#[cfg(jxl_oxide_verif)]
+pub mod verif {
+    use super::{JxlScope, JxlScopeInner};
+
+    /// Type-erased task.
+    pub type Task = Box<dyn FnOnce() + Send + 'static>;
+
+    /// How the items of one `for_each_*` call are distributed.
+    ///
+    /// `steps` lists `(worker, item)` pairs; every item index in `0..n` appears exactly once.
+    /// Each worker owns one clone of the `init` value and visits its items in the order given.
+    pub struct Plan {
+        pub workers: usize,
+        pub steps: Vec<(usize, usize)>,
+        /// `false`: the steps are executed one after another, in the order given, on the calling
+        /// thread. `true`: one task per worker is handed to [`VerifPool::run_batch`].
+        pub concurrent: bool,
+    }
+
+    /// Executor owned by a simulator.
+    ///
+    /// # Safety
+    /// Tasks given to `run_batch` and `scope_spawn` borrow from the caller's stack with their
+    /// lifetime erased. `run_batch` must not return before every task has finished (or has been
+    /// dropped), and `scope_exit(token)` must not return before every task spawned with `token`
+    /// has finished (or has been dropped).
+    pub unsafe trait VerifPool: Send + Sync + std::fmt::Debug {
+        fn is_multithreaded(&self) -> bool;
+        /// Detached task.
+        fn spawn(&self, task: Task);
+        fn plan(&self, n_items: usize) -> Plan;
+        fn run_batch(&self, tasks: Vec<Task>);
+        fn scope_enter(&self) -> usize;
+        fn scope_spawn(&self, token: usize, task: Task);
+        fn scope_exit(&self, token: usize);
+    }
+
+    unsafe fn erase<'a>(task: Box<dyn FnOnce() + Send + 'a>) -> Task {
+        // SAFETY: contract of `VerifPool`.
+        unsafe { std::mem::transmute(task) }
+    }
+
+    pub(super) fn scope<'scope, R: Send>(
+        pool: &'scope dyn VerifPool,
+        op: impl for<'r> FnOnce(JxlScope<'r, 'scope>) -> R + Send,
+    ) -> R {
+        struct ExitGuard<'a>(&'a dyn VerifPool, usize);
+        impl Drop for ExitGuard<'_> {
+            fn drop(&mut self) {
+                self.0.scope_exit(self.1);
+            }
+        }
+
+        let token = pool.scope_enter();
+        let _guard = ExitGuard(pool, token);
+        op(JxlScope(JxlScopeInner::Verif(pool, token, Default::default())))
+    }
+
+    pub(super) fn scope_spawn<'scope>(
+        pool: &dyn VerifPool,
+        token: usize,
+        op: impl for<'r> FnOnce(JxlScope<'r, 'scope>) + Send + 'scope,
+    ) {
+        // SAFETY: the pool outlives the scope it created.
+        let pool_ref: &'scope dyn VerifPool = unsafe { std::mem::transmute(pool) };
+        let task: Box<dyn FnOnce() + Send + 'scope> = Box::new(move || {
+            op(JxlScope(JxlScopeInner::Verif(
+                pool_ref,
+                token,
+                Default::default(),
+            )))
+        });
+        pool.scope_spawn(token, unsafe { erase(task) });
+    }
+
+    pub(super) fn for_each_with<T: Send, U: Send + Clone>(
+        pool: &dyn VerifPool,
+        items: Vec<T>,
+        init: U,
+        op: impl Fn(&mut U, T) + Send + Sync,
+    ) {
+        let n = items.len();
+        if n == 0 {
+            return;
+        }
+        let plan = pool.plan(n);
+        assert!(plan.workers >= 1 && plan.steps.len() == n, "invalid plan");
+        let mut items: Vec<Option<T>> = items.into_iter().map(Some).collect();
+        if !plan.concurrent {
+            let mut states: Vec<U> = (0..plan.workers).map(|_| init.clone()).collect();
+            for (worker, item) in plan.steps {
+                let item = items[item].take().expect("item scheduled twice");
+                op(&mut states[worker], item);
+            }
+        } else {
+            let mut per_worker: Vec<Vec<T>> = (0..plan.workers).map(|_| Vec::new()).collect();
+            for (worker, item) in plan.steps {
+                per_worker[worker].push(items[item].take().expect("item scheduled twice"));
+            }
+            let op = &op;
+            let tasks = per_worker
+                .into_iter()
+                .filter(|list| !list.is_empty())
+                .map(|list| {
+                    let mut state = init.clone();
+                    let task: Box<dyn FnOnce() + Send + '_> = Box::new(move || {
+                        for item in list {
+                            op(&mut state, item);
+                        }
+                    });
+                    unsafe { erase(task) }
+                })
+                .collect();
+            pool.run_batch(tasks);
         }
     }
 }
